@@ -309,7 +309,9 @@ def points(t, case, setting, abs_guard=True, manly_low=-13.8):
     if cls == "Reciprocal":
         nu = getp(t, "nu")
         mininu = case["ctor"]["mininu"]
-        lo, hi = max(mininu * 1.001, 1e-8), min(1e8, 0.999 / mininu)
+        # x + nu from 1e-8 (the lower end of the domain is x > -nu, whatever
+        # mininu) up to just below 1/mininu (backward needs y < -mininu)
+        lo, hi = 1e-8, min(1e8, 0.999 / mininu)
         z = np.exp(math.log(lo) + (u + 1) / 2 * (math.log(hi) - math.log(lo)))
         return dict(x=z - nu, sx=np.abs(z - nu) + nu, loc=z, lab=lab, z=z,
                     mininu=mininu)
